@@ -42,7 +42,33 @@ def apply_edit(tmp: str, m: dict[str, Any]) -> str | None:
     return None
 
 
+def _one(args: tuple[str, str, dict[str, Any], list[str]]) -> dict[str, Any]:
+    from .engine import analyse
+
+    prop, root, m, base_fail = args
+    tmp = _copy_sources(root)
+    try:
+        why = apply_edit(tmp, m)
+        if why is not None:
+            return {"id": m["id"], "status": "inapplicable", "why": why}
+        ctx = analyse(prop, tmp)
+        new_fail = [o for o in ctx.failures if o.key not in base_fail]
+        if m.get("neutral"):
+            if new_fail or ctx.errors:
+                return {"id": m["id"], "status": "false_alarm", "why": f"{[o.key for o in new_fail][:3]} {ctx.errors[:2]}"}
+            return {"id": m["id"], "status": "neutral_silent"}
+        hits = [o for o in new_fail if o.rule.startswith(m["expect"])]
+        if hits:
+            return {"id": m["id"], "status": "detected", "reported": hits[0].key, "detail": hits[0].detail[:160]}
+        return {"id": m["id"], "status": "missed",
+                "why": f"expected {m['expect']}; got {[o.key for o in new_fail][:3]} errors={ctx.errors[:2]}"}
+    finally:
+        shutil.rmtree(tmp, ignore_errors=True)
+
+
 def run_selftest(prop: str, root: str) -> dict[str, Any]:
+    from concurrent.futures import ProcessPoolExecutor
+
     from .engine import analyse
     from .mutants import MUTANTS
 
@@ -50,30 +76,30 @@ def run_selftest(prop: str, root: str) -> dict[str, Any]:
     res: dict[str, Any] = {"mutants": 0, "detected": 0, "neutral": 0, "neutral_silent": 0, "inapplicable": [],
                            "missed": [], "false_alarms": [], "detail": []}
     base = analyse(prop, root)
-    base_fail = {o.key for o in base.failures}
-    for m in mine:
-        tmp = _copy_sources(root)
-        try:
-            why = apply_edit(tmp, m)
-            if why is not None:
-                res["inapplicable"].append(f"{m['id']}: {why}")
-                continue
-            ctx = analyse(prop, tmp)
-            new_fail = [o for o in ctx.failures if o.key not in base_fail]
-            if m.get("neutral"):
-                res["neutral"] += 1
-                if new_fail or ctx.errors:
-                    res["false_alarms"].append(f"{m['id']}: {[o.key for o in new_fail][:3]} {ctx.errors[:2]}")
-                else:
-                    res["neutral_silent"] += 1
+    base_fail = [o.key for o in base.failures]
+    jobs = [(prop, root, m, base_fail) for m in mine]
+    workers = min(16, max(1, len(jobs)))
+    try:
+        with ProcessPoolExecutor(max_workers=workers) as ex:
+            outs = list(ex.map(_one, jobs))
+    except (OSError, PermissionError):
+        outs = [_one(j) for j in jobs]
+    for m, o in zip(mine, outs):
+        st = o["status"]
+        if st == "inapplicable":
+            res["inapplicable"].append(f"{o['id']}: {o['why']}")
+            continue
+        if m.get("neutral"):
+            res["neutral"] += 1
+            if st == "neutral_silent":
+                res["neutral_silent"] += 1
             else:
-                res["mutants"] += 1
-                hits = [o for o in new_fail if o.rule.startswith(m["expect"])]
-                if hits:
-                    res["detected"] += 1
-                    res["detail"].append({"mutant": m["id"], "reported": hits[0].key, "detail": hits[0].detail[:160]})
-                else:
-                    res["missed"].append(f"{m['id']} (expected {m['expect']}; got {[o.key for o in new_fail][:3]} errors={ctx.errors[:2]})")
-        finally:
-            shutil.rmtree(tmp, ignore_errors=True)
+                res["false_alarms"].append(f"{o['id']}: {o.get('why')}")
+        else:
+            res["mutants"] += 1
+            if st == "detected":
+                res["detected"] += 1
+                res["detail"].append({"mutant": o["id"], "reported": o["reported"], "detail": o["detail"]})
+            else:
+                res["missed"].append(f"{o['id']} ({o.get('why')})")
     return res
